@@ -1,6 +1,7 @@
 # flake8: noqa F405
 import logging
 
+from copy import copy
 from datetime import datetime
 from typing import Any, Callable, Dict, List, Optional, Tuple, Union, Type
 
@@ -101,6 +102,11 @@ def rule(*patterns: Union[str, Predicate]) -> Callable[[Any], ProductionRule]:
         def wrapper(ts: datetime, *args: Artifact) -> Optional[Artifact]:
             res = f(ts, *args)
             if res is not None:
+                if any(res is a for a in args):
+                    # the production handed one of its arguments back (absorb
+                    # rules); that value is shared with other partial parses,
+                    # so widen the span of a copy, not of the argument
+                    res = copy(res)
                 # upon a successful production, update the span
                 # information by expanding it to that of all args
                 res.update_span(*args)
